@@ -55,7 +55,7 @@ def work(item):
         res["spec_error"] = repr(e)
         return res
     tc = TreeChecker(g)
-    diverges = "nullable_under_star_plus" in feats
+    diverges = False  # (grammars with an empty-deriving body under */+ no longer diverge: fix 6fe4bf86)
     seen: dict = {}
 
     def body(ch):
